@@ -10,6 +10,26 @@ void far_copies(uint8_t *d, size_t n, uint64_t seed)
 {
         Rng r(seed, "farcopy");
         size_t i = 4096 + (size_t) r.below(4096);
+        if ((seed & 7) == 7) {
+                // second style: a long literal lead-in, then clusters of 8-30 copies of every length from all over the window (half of
+                // them from beyond 16 KiB: 13 extra distance bits), 500-2500 literals between the clusters - runs of tokens of 26-35 bits
+                // of mixed widths, where the first style has short clusters of mostly short copies
+                i = std::min<size_t>(n / 2, 32768);
+                while (i < n) {
+                        for (int c = (int) (8 + r.below(23)); c > 0 && i < n; c--) {
+                                size_t len = 4 + (size_t) r.below(250), dist = r.chance(1, 2) ? 16385 + (size_t) r.below(16000) : 300 + (size_t) r.below(32000);
+                                if (dist > i)
+                                        dist = i;
+                                if (len > n - i)
+                                        len = n - i;
+                                for (size_t k = 0; k < len; k++)
+                                        d[i + k] = d[i + k - dist];
+                                i += len;
+                        }
+                        i += 500 + (size_t) r.below(2000);
+                }
+                return;
+        }
         while (i < n) {
                 bool big = r.chance(1, 60); // rarely (so that their length symbols stay rare and get long codes) dozens of long copies back to back: 16 consecutive tokens of 30+ bits each
                 int cluster = big ? 16 + (int) r.below(48) : 2 + (int) r.below(5);
